@@ -28,8 +28,12 @@ def make_ds(ctx, rng, d):
     for j, k in enumerate(kinds):
         df[f"c{j}"] = gen_column(rng, k, n, rng.choice(["none", "some"])).values if k not in ("Int64", "cat_str") else gen_column(rng, k, n, "some")
     layout = rng.choice(["simple", "simple", "hive", "hive-part2"])
+    if d == 0:
+        layout = "simple"
     if d == 1:
         layout = "hive-part2"
+    if d == 2:
+        layout = "hive"
     if layout == "hive-part2":
         # two partition keys: column subsets may then name a later key without an earlier one
         df["p"] = np.array([rng.randrange(0, 2) for _ in range(n)], dtype="int64")
@@ -112,11 +116,16 @@ def run(ctx, report):
 
         for p in range(nprog):
             variant = rng.choice(["path", "path", "filelike", "pickle", "copy", "deepcopy"])
+            real_file = rng.random() < 0.5
+            if p < 6:
+                # directed: every kind of handle on every dataset, whatever the seed
+                variant = ["filelike", "filelike", "pickle", "copy", "deepcopy", "path"][p]
+                real_file = p == 0
             rec = {"check": "program", "dataset": dsdesc, "handle": variant}
             ctx.crumb(rec)
             try:
                 if variant == "filelike" and layout == "simple":
-                    fobj = open(path, "rb") if rng.random() < 0.5 else io.BytesIO(open(path, "rb").read())
+                    fobj = open(path, "rb") if real_file else io.BytesIO(open(path, "rb").read())
                     pf = fastparquet.ParquetFile(fobj)
                     # a first read through the same handle (the caller's file object must survive it)
                     pf.to_pandas(columns=["rid"])
